@@ -15,7 +15,7 @@ def parseEv (j : Json) : Except String CEv := do
   | "open" => return .open_ τ (← getNat j "ctx")
   | "ws" => return .wireStart τ (← getRat j "t")
   | "we" => return .wireEnd τ (← getRat j "t")
-  | "close" => return .close τ
+  | "close" => return .close τ ((j.getObjValAs? Bool "exc").toOption.getD false)
   | _ => throw s!"unknown event kind {k}"
 
 def errName : Err → String
@@ -41,7 +41,7 @@ def runRec (fx : Bool) : St → List CEv → List Json → Except Err (St × Lis
   | s, [], acc => .ok (s, acc.reverse)
   | s, e :: es, acc =>
     let acc' := match e with
-      | .close τ =>
+      | .close τ _ =>
         match s.tasks τ with
         | some tk =>
           match tk.chain with
